@@ -33,4 +33,17 @@ BOUNDS = {
         "assumptions": ["regexp matching on symbolic text is the engine's NFA-as-term model; strconv.ParseFloat on symbolic text is handled by enumerating the feasible byte values",
                         "outside: longer texts, two or more cuts, the 'asks for more input exactly when unfinished' clause is only checked through chunk equivalence, the REPL's liner loop"],
     },
+    "C02": {
+        "quick": "expr: depth<=1 over 11 forms (atoms: symbolic int, global a, possibly-unbound x); nested: 12 outer forms x depth-1 expression in one operand position; loops: 8 shapes, bound n in [0,3], break/continue index symbolic; calls: 10 shapes. Operands assumed inside +-2^31 (C07 owns the boundaries). Reference evaluator unwinding bound 4 iterations / 200 calls.",
+        "thorough": "expr depth<=2.",
+        "assumptions": ["oracle: the reference evaluator in harness/zz_verif_eval.go encoding Appendix A of DESIGN.md", "outside: surface syntax (ASTs are built directly), strings/hashes as operands, infix, deeper nesting"],
+    },
+    "C04": {
+        "all": "the C02 shapes (expr depth<=1, nested, loops, calls) + together; only evaluations that succeed. Outside: declarations (struct, func, method, interface, package), macros, range, infix blocks; the static stack-height pass of DESIGN §6 is not built.",
+        "assumptions": ["reads the unexported stacks of Zlisp (datastack, linearstack, addrstack, loopstack) from in-package harness code injected by overlay"],
+    },
+    "C05": {
+        "all": "failure plan of 4 symbolic Bools (k-th host call fails), failure kind in {error return, Go panic}; shapes: C02 expr depth<=1, loops, calls; 3 malformed forms x 16 positions. Follow-up battery: 8 names, (+ 1 2), empty input.",
+        "assumptions": ["outside: parse-time failures (C13), failures inside lazy forcing/eval (C16), deeper programs"],
+    },
 }
